@@ -130,8 +130,10 @@ func Append(ctx context.Context, basen ipld.Node, db *h.DagBuilderHelper) (out i
 		return nil, err
 	}
 
-	// after appendFillLastChild, our depth is now increased by one
-	if !db.Done() {
+	// appendFillLastChild has completed the partially filled layer (if any),
+	// so filling continues at the next depth. With repeatNumber == 0 there
+	// was no partial layer: `depth` already is the layer to start next.
+	if !db.Done() && repeatNumber != 0 {
 		depth++
 	}
 
@@ -227,8 +229,10 @@ func appendRec(ctx context.Context, fsn *h.FSNodeOverDag, db *h.DagBuilderHelper
 		return nil, 0, err
 	}
 
-	// after appendFillLastChild, our depth is now increased by one
-	if !db.Done() {
+	// appendFillLastChild has completed the partially filled layer (if any),
+	// so filling continues at the next depth. With repeatNumber == 0 there
+	// was no partial layer: `depth` already is the layer to start next.
+	if !db.Done() && repeatNumber != 0 {
 		depth++
 	}
 
